@@ -44,6 +44,8 @@ func c03Parts() (prefixes [][]gen.Op, kinds []string, rights []*gen.Pipeline, co
 		tbl("R", take1),
 		tbl("R", sortBy("y"), take1),
 		tbl("R", &gen.As{Name: gen.Ident{Name: "Q"}}),
+		tbl("R", &gen.Top{N: num("2"), By: gen.SortTerm{X: gen.Col("y")}}, take1),
+		tbl("R", take1, sortBy("y")),
 		tbl("R", &gen.Join{Right: tbl("C"), On: []gen.Expr{gen.Col("k")}}),
 		tbl("R", gt("y"), &gen.Join{Kind: "inner", Right: tbl("C"), On: []gen.Expr{&gen.Binary{Op: "==", X: lr("$left", "k"), Y: lr("$right", "k")}}}, proj("k", "y")),
 	}
@@ -93,8 +95,38 @@ func c03DBs(thorough bool) []rel.DB {
 	return out
 }
 
+// c03Programs lists the join programs (all = every combination; otherwise at most maxNonDefault non-default parts).
+func c03Programs(all bool, maxNonDefault int) []*gen.Pipeline {
+	prefixes, kinds, rights, conds, suffixes := c03Parts()
+	var out []*gen.Pipeline
+	for a := range prefixes {
+		for k := range kinds {
+			for b := range rights {
+				for c := range conds {
+					for d := range suffixes {
+						nd := 0
+						for _, x := range []int{a, k, b, c, d} {
+							if x != 0 {
+								nd++
+							}
+						}
+						if !all && nd > maxNonDefault {
+							continue
+						}
+						ops := append([]gen.Op{}, prefixes[a]...)
+						ops = append(ops, &gen.Join{Kind: kinds[k], Right: rights[b], On: conds[c]})
+						ops = append(ops, suffixes[d]...)
+						out = append(out, &gen.Pipeline{Source: gen.Ident{Name: "L"}, Ops: ops})
+					}
+				}
+			}
+		}
+	}
+	return out
+}
+
 func c03Main(r *run.Runner) {
-	r.Rule = "explicit-state exploration of join compilation: every program `L <prefix> | join [kind=K] (R <right>) on <cond> <suffix>` over 7 left prefixes x 4 kinds x 8 right-hand pipelines (two with nested joins) x 7 condition forms x 8 suffixes (two with a second join) - quick: all combinations with at most three non-default parts - is compiled; " +
+	r.Rule = "explicit-state exploration of join compilation: every program `L <prefix> | join [kind=K] (R <right>) on <cond> <suffix>` over 7 left prefixes x 4 kinds x 10 right-hand pipelines (two with nested joins) x 7 condition forms x 8 suffixes (two with a second join) - quick: all combinations with at most three non-default parts - is compiled; " +
 		"the emitted SQL is executed by the list-semantics SQL evaluator on every pair of small tables L(k,x), R(k,y) (all row lists of <= 2 rows over k in {NULL,1,2}, x,y in {1,2}) and C(k,w), and compared with the reference join semantics applied by the pipeline interpreter. states = programs, transitions = operator applications, traces validated = (program, database) executions"
 	r.Assume = []string{"result columns of a join = left columns then right columns", "references to a column name present on both sides after the join are not generated; programs whose reference evaluation is undefined (ambiguous name) are skipped and counted"}
 	prefixes, kinds, rights, conds, suffixes := c03Parts()
